@@ -24,6 +24,12 @@ def run(ctx):
     render.order(ctx)
     render.duplicate_cel(ctx)
     render.cel_rows_grow_only(ctx, rule='K3')
+    import common as _common
+    _common.arm_state_independence(ctx, 'K3')       # a cel is stored whatever chunks came before it (seed C02-m dropped cels whose layer chunk follows)
+    import C17 as _c17
+    _c17.normal_divisions(ctx, 'K7')          # blending onto a still transparent canvas pixel cannot stop the composition (seed C02-g)
+    import layout as _layout
+    _layout.tile_words(ctx, 'K7')             # tilemap cels are blended from the tile the map entry names (seed C02-n: hard-coded id mask)
     render.gate(ctx)
     render.ancestor_walk(ctx)
     # "visible" is C09's notion: the parent table the gate walks must be the nearest-preceding-lower-level one (seed C02-j replaced the
